@@ -63,6 +63,10 @@ UpTo(S, d, seen) ==
   IF d = 0 \/ S \subseteq seen THEN seen \cup S
   ELSE UpTo(UNION {Pred(n) : n \in S}, d - 1, seen \cup S)
 
+\* nodes with the same bytes as a node of S: a destination keyed by digest
+\* holds them as soon as it holds one of them
+Same(S) == UNION {Rng(g.same[n]) : n \in S}
+
 ExpectedRoot == IF g.maproot # 0 THEN g.maproot ELSE g.root
 IsExt == g.api \in {"extcopygraph", "extcopy"}
 IsTagging == g.api \in {"copy", "extcopy"}
@@ -191,10 +195,11 @@ Final ==
            <<"EdgesResolvable", ok => \A i \in 1..Len(Rec.dangling) : Rec.dangling[i][1] \notin want>>,
            <<"PresentBytes", has \subseteq good>>,
            <<"RootTagged", ok /\ IsTagging => Rec.tag = (IF IsExt THEN g.root ELSE ExpectedRoot)>>,
-           <<"ExtAllAncestors", ok /\ IsExt /\ g.depth = 0 => has = Rng(g.dst0) \cup ExtAll>>,
+           <<"ExtAllAncestors", ok /\ IsExt /\ g.depth = 0 =>
+                  (ExtAll \subseteq has /\ has \subseteq Rng(g.dst0) \cup Same(ExtAll))>>,
            <<"ExtAllBytes", ok /\ IsExt /\ g.depth = 0 => ExtAll \subseteq good>>,
-           <<"ExtDepthBound", ok /\ IsExt /\ g.depth > 0 => (has \ Rng(g.dst0)) \subseteq ExtWithin(g.depth)>>,
-           <<"NothingElse", ok /\ ~IsExt => has \subseteq Rng(g.dst0) \cup ReachNF(ExpectedRoot) \cup ReachNF(g.root)>>})
+           <<"ExtDepthBound", ok /\ IsExt /\ g.depth > 0 => (has \ Rng(g.dst0)) \subseteq Same(ExtWithin(g.depth))>>,
+           <<"NothingElse", ok /\ ~IsExt => has \subseteq Rng(g.dst0) \cup Same(ReachNF(ExpectedRoot) \cup ReachNF(g.root))>>})
   /\ phase' = "idle"
   /\ UNCHANGED <<g, dst, srcIn, dstIn, nPush, nFetch, cbs, pushed, cbFail, ret>>
 
